@@ -263,6 +263,13 @@ mod scalar {
     use ::glam_scalar as glam;
     include!("suite.rs");
 }
+/// scalar-math with `glam-assert`: the second pass for the scalar copies (a quarter of the volume)
+#[cfg(not(feature = "core"))]
+mod scalar_asserting {
+    pub const VARIANT: &str = "scalar+glam-assert";
+    use ::glam_scalar_assert as glam;
+    include!("suite.rs");
+}
 /// the same algebra with `glam-assert` compiled in: the Hamilton product, conjugate and the 4-vector operations are stated
 /// for every finite quaternion, so none of them may start rejecting (panicking on) non-unit operands there
 #[cfg(not(feature = "core"))]
@@ -286,6 +293,7 @@ fn main() {
         subs.extend(simd::subs(&args));
         subs.extend(scalar::subs(&args));
         subs.extend(asserting::subs(&args).into_iter().filter(|s| s.name.starts_with("hamilton-int/") || s.name.starts_with("hamilton-real/")));
+        subs.extend(scalar_asserting::subs(&args).into_iter().filter(|s| s.name.starts_with("hamilton-int/") || s.name.starts_with("hamilton-real/")).map(|s| s.with_div(4)));
     }
     #[cfg(feature = "core")]
     {
